@@ -5,7 +5,7 @@ application thread, so the observable states are exactly the prefixes of the
 store sequences of constructor, SetHandler and destructor - finite objects that
 a typestate run over the CFG enumerates completely (DESIGN 4/C15).
 """
-from ..cfg import reach_calls, Facts, kids, strip, walk, cv, render, short_loc, call_args
+from ..cfg import xrender, reach_calls, Facts, kids, strip, walk, cv, render, short_loc, call_args
 from ..facts import export_many, AnalysisBroken
 from .. import units
 
@@ -427,7 +427,7 @@ def run(rep, ctx):
     if not su:
         raise AnalysisBroken("StdBackend::SetupInterrupter instantiation not found")
     calls = su[0].calls(name="SetInterrupter")
-    ok = len(calls) == 1 and render(call_args(calls[0])[0]).startswith("interrupter()")
+    ok = len(calls) == 1 and xrender(su[0], call_args(calls[0])[0], True).replace("this->", "").startswith("interrupter()")
     t1.check(ok, "registration-uses-installed-interrupter", short_loc(su[0].loc),
              "SetupInterrupter calls SetInterrupter(interrupter())")
     return rep
